@@ -122,6 +122,12 @@ def blank_context_cases(vh, scratch, seed, quick=True, want="c07"):
     cases, res = emit_cases(scratch, 70, consts)
     if not res.ok:
         raise C.Inconclusive("Wrap.tla violates its own properties (%s): specification alarm" % res.violated)
+    # the same with the Blank behind a transforming source (its blocking report goes through the wrapper's WatchArgs)
+    consts2 = dict(Mode='"tblank"', Outer='"set"', Wraps='{"none"}', AVals="{1, 13}", SVals='{"unset", "p"}', MaxOps=3)
+    cases2, res2 = emit_cases(scratch, 71, consts2)
+    if not res2.ok:
+        raise C.Inconclusive("Wrap.tla violates its own properties (%s): specification alarm" % res2.violated)
+    cases += cases2
     sel = [c for c in cases if any(h["op"] == "setagain" or h["a"] == 13 or (h["op"].startswith("set") and not prev["alive"])
                                    for prev, h in zip([{"alive": True}] + c["hist"], c["hist"]))]
     if quick and len(sel) > 6000:
